@@ -214,5 +214,41 @@ func TestDrive_C06(t *testing.T) {
 		}, map[string]any{"max_concurrency": cap, "max_wait_ns": maxWait, "executions": nth, "variants": variant, "schedule": strings.Join(ss, "; "),
 			"status_after_each_step": strings.Join(snaps, "; "), "free_permits_at_the_end": free}, maxHold >= 1 && waited, fmt.Sprint(cap, maxWait, sl))
 	}
+	// balance probes: executions arriving with an already cancelled context (either outcome of the first select is legal)
+	for cap := 1; cap <= 3; cap++ {
+		for _, mw := range []int64{0, 5_000_000} {
+			free := 0
+			ran, refused := 0, 0
+			synctest.Test(t, func(t *testing.T) {
+				bh := bulkhead.Builder[int](uint(cap)).WithMaxWaitTime(time.Duration(mw)).Build()
+				for i := 0; i < 80; i++ {
+					ctx, cancel := context.WithCancel(context.Background())
+					cancel()
+					pols := []failsafe.Policy[int]{bh}
+					if i%3 == 1 {
+						pols = []failsafe.Policy[int]{retrypolicy.Builder[int]().WithMaxRetries(1).Build(), bh}
+					}
+					var err error
+					if i%2 == 0 {
+						_, err = failsafe.NewExecutor[int](pols...).WithContext(ctx).Get(func() (int, error) { ran++; return 0, nil })
+					} else {
+						_, err = failsafe.NewExecutor[int](pols...).WithContext(ctx).GetAsync(func() (int, error) { ran++; return 0, nil }).Get()
+					}
+					if err != nil {
+						refused++
+					}
+				}
+				synctest.Wait()
+				for bh.TryAcquirePermit() {
+					free++
+				}
+			})
+			c, f := cap, free
+			w.Add(func(id int) string { return fmt.Sprintf("mk_case %d %d %d 0%%nat 0 [] [] %d", id, c, mw, f) },
+				map[string]any{"probe": "80 executions with an already cancelled context", "max_concurrency": cap, "function_ran": ran, "failed": refused, "free_permits_at_the_end": free},
+				true, fmt.Sprint("balance", cap, mw))
+			w.Stat("balance_probe")
+		}
+	}
 	w.Close("schedules of 8-52 atomic steps over 1-10 executions (plain, under Fallback/Timeout/Retry, async) and standalone callers sharing one bulkhead (maxConcurrency 0-4, max wait 0 / 1ns / 5ms / 1min) in a virtual-time bubble: an execution reaches the bulkhead, an admitted execution's function finishes (success or failure), an execution's context is cancelled (while waiting or while holding), the clock advances (1ns, wait-1, wait, wait+1, random), standalone TryAcquirePermit / ReleasePermit. After every step the status of every execution (idle / waiting / holding / released / refused with ErrFull / cancelled with the context error); at the end the number of free permits is probed. Non-trivial = some execution held a permit and some execution waited; distinct by (configuration, schedule).", nil)
 }
